@@ -567,7 +567,8 @@ class Oracles:
                 w.fail(props, "close/raised-foreign-exception", repr(raised))
             elif not pm.fault_seen:
                 w.fail({"C08"}, "close/raised-without-fault", repr(raised))
-            pm.close_failed = True  # type: ignore[attr-defined]
+            if self.is_injected(pm, raised):
+                pm.close_failed = True  # type: ignore[attr-defined]   (legitimately not closed: completeness is not owed)
             return
         # returned normally: snapshot of the world in this very step
         w.label("close:returned")
